@@ -1130,6 +1130,7 @@ theorem inv_step {inst c} (hv : c.valid) {s : St} (h : Inv inst c s) (op : Op)
   | svcDelete o => exact inv_svcDelete h o true (Or.inl rfl)
   | svcDeleteCut o => exact inv_svcDeleteCut h o
   | svcSync => exact inv_svcSync h (by simpa [opOk] using hok)
+  | devGone o => exact ⟨h.uniq, h.bel, h.dev, h.dom, h.vipNet, h.svipHost, h.belHost⟩
 
 theorem inv_run {inst c} (hv : c.valid) : ∀ (ops : List Op) (s : St), Inv inst c s →
     Proto c inst s ops → Inv inst c (run c s ops) := by
@@ -1296,6 +1297,7 @@ theorem uniq_step (c : Cidr) {s : St} (h : Uniq s.links) (op : Op) : Uniq (step 
   | svcDelete o => exact uniq_of_sub h (svcDelete_links_sub s o true)
   | svcDeleteCut o => exact uniq_of_sub h (svcDeleteCut_links_sub s o)
   | svcSync => exact uniq_of_sub h (svcSync_links_sub s)
+  | devGone o => exact h
 
 theorem uniq_run (c : Cidr) : ∀ (ops : List Op) (s : St), Uniq s.links → Uniq (run c s ops).links := by
   intro ops
